@@ -267,7 +267,7 @@ class Result:
             print("KNOWN-FINDING: property=%s %s: %s (%d occurrence(s) this run)" % (self.prop, fid, f["summary"], n))
         seen = set()
         nprinted = 0
-        for old in os.listdir(REPLAYS):
+        for old in os.listdir(REPLAYS) if self.write_evidence else []:
             if old.startswith(self.prop + "-"):
                 os.unlink(os.path.join(REPLAYS, old))
         for m in viol:
